@@ -1,9 +1,15 @@
 import Mutagen.Driver.Util
 import Mutagen.Driver.Tree
 namespace Mutagen.Driver.C06
+open Mutagen.Driver
 
-/-- Line: `<mode> <A> <alpha> <beta>` (encoding of `Driver/Tree.lean`); answer:
-the canonical plan `anc=… alpha=… beta=… conf=…` of the model's `Reconcile`. -/
-def handle (line : String) : String := Mutagen.Driver.Tree.handleReconcile line
+/-- Lines:
+`<mode> <A> <alpha> <beta>` (encoding of `Driver/Tree.lean`) → the canonical plan
+`anc=… alpha=… beta=… conf=…` of the model's `Reconcile`;
+`cfvalid <conflict>` → `Conflict.EnsureValid() == nil` as 0/1, `|`, the `Slim()` conflict. -/
+def handle (line : String) : String :=
+  match fields line with
+  | ["cfvalid", c] => Mutagen.Driver.Tree.handleConflictValid c
+  | _ => Mutagen.Driver.Tree.handleReconcile line
 
 end Mutagen.Driver.C06
